@@ -10,6 +10,7 @@ import (
 	"path"
 	"path/filepath"
 	"strings"
+	"sync"
 
 	"github.com/pojntfx/stfs/internal/converters"
 	"github.com/pojntfx/stfs/internal/db/sqlite/migrations/metadata"
@@ -30,6 +31,7 @@ type depth struct {
 type MetadataPersister struct {
 	sqlite *ipersisters.SQLite
 
+	rootLock          sync.Mutex // Guards the cached root below; lookups may run concurrently (i.e. while a file is being streamed)
 	root              string
 	rootIsEmptyString bool
 }
@@ -44,6 +46,7 @@ func NewMetadataPersister(dbPath string) *MetadataPersister {
 				Dir:      "../../db/sqlite/migrations/metadata",
 			},
 		},
+		sync.Mutex{},
 		"",
 		false,
 	}
@@ -65,12 +68,17 @@ func (p *MetadataPersister) Open() error {
 		return err
 	}
 
+	p.rootLock.Lock()
 	p.root = root
+	p.rootLock.Unlock()
 
 	return nil
 }
 
 func (p *MetadataPersister) GetRootPath(ctx context.Context) (string, error) {
+	p.rootLock.Lock()
+	defer p.rootLock.Unlock()
+
 	// Cache the root directory
 	if p.root != "" {
 		return p.root, nil
@@ -507,8 +515,10 @@ func (p *MetadataPersister) PurgeAllHeaders(ctx context.Context) error {
 		return err
 	}
 
+	p.rootLock.Lock()
 	p.root = ""
 	p.rootIsEmptyString = false
+	p.rootLock.Unlock()
 
 	return nil
 }
@@ -530,6 +540,9 @@ func (p *MetadataPersister) headerExistsExact(ctx context.Context, name string) 
 }
 
 func (p *MetadataPersister) getSanitizedPath(ctx context.Context, name string) string {
+	p.rootLock.Lock()
+	defer p.rootLock.Unlock()
+
 	// If root is queried, return actual root
 	if pathext.IsRoot(name, false) || name == p.root {
 		return p.root
